@@ -291,12 +291,57 @@ func TestC04Real(t *testing.T) {
 		if err != nil {
 			rt.Fatalf("schedule: %v", err)
 		}
-		time.Sleep(after)
+		// in a third of the cases the cancel aims at a gap: a task has ended, none is executing, the scheduler has
+		// not yet launched the next one (up to one 50 ms poll)
+		inGap := rapid.IntRange(0, 2).Draw(rt, "cancelBetweenTasks") == 0
+		if inGap {
+			deadline := time.Now().Add(time.Duration(total)*time.Millisecond + 5*time.Second)
+			for time.Now().Before(deadline) {
+				v, _ := w.view(job.ID)
+				ended, running := 0, 0
+				for _, tv := range v.Tasks {
+					if tv.Ended {
+						ended++
+					} else if tv.Started {
+						running++
+					}
+				}
+				if v.Completed || (ended > 0 && running == 0) {
+					break
+				}
+				time.Sleep(200 * time.Microsecond)
+			}
+		} else {
+			time.Sleep(after)
+		}
 		before, _ := w.view(job.ID)
 		cerr := w.pr.CancelJob(job.ID)
 		ack := time.Now()
 		desc := fmt.Sprintf("graph [%s] cancel after %s", describeGraph(ts), after)
+		if inGap {
+			desc = fmt.Sprintf("graph [%s] cancel between two tasks", describeGraph(ts))
+		}
+		// (a canary next to the wait: how late do 2 ms sleeps wake up right now?)
+		canaryStop, canaryMax := make(chan struct{}), make(chan time.Duration, 1)
+		go func() {
+			var worst time.Duration
+			for {
+				select {
+				case <-canaryStop:
+					canaryMax <- worst
+					return
+				default:
+				}
+				t0 := time.Now()
+				time.Sleep(2 * time.Millisecond)
+				if over := time.Since(t0) - 2*time.Millisecond; over > worst {
+					worst = over
+				}
+			}
+		}()
 		v, ok := w.waitDone(job.ID, 30*time.Second)
+		close(canaryStop)
+		canary := <-canaryMax
 		if !ok {
 			rt.Fatalf("[C04] %s: the job does not finish after the cancel", desc)
 		}
@@ -322,18 +367,32 @@ func TestC04Real(t *testing.T) {
 			}
 			rt.Fatalf("[C04] %s: cancel of an unfinished job returned %v", desc, cerr)
 		}
-		var late []string
+		var late, ranOn []string
 		allDone := true
+		ignores := map[string]bool{}
+		for _, tk := range ts {
+			ignores[tk.name] = tk.ignoreInt
+		}
 		_ = w.pr.ReadJob(job.ID, func(j *prunner.PipelineJob) {
 			for _, tk := range j.Tasks {
 				if tk.Start != nil && tk.Start.After(ack.Add(100*time.Millisecond)) {
 					late = append(late, tk.Name)
+				}
+				// A task that the scheduler was just launching when the cancel came may begin a moment after the
+				// acknowledgement - but it is then told to stop like the others. One that began after the
+				// acknowledgement and ran on for 50 ms and more to its natural end was never told.
+				if tk.Start != nil && tk.End != nil && tk.Start.After(ack) && tk.Status == "done" && tk.End.Sub(*tk.Start) >= 50*time.Millisecond && !ignores[tk.Name] {
+					ranOn = append(ranOn, tk.Name)
 				}
 				if tk.Status != "done" {
 					allDone = false
 				}
 			}
 		})
+		sort.Strings(ranOn)
+		if len(ranOn) > 0 && canary < 15*time.Millisecond {
+			rt.Fatalf("[C04] %s: tasks %v began after the cancel was acknowledged and ran to their natural end (50 ms and more) without being told to stop", desc, ranOn)
+		}
 		sort.Strings(late)
 		if len(late) > 0 {
 			rt.Fatalf("[C04] %s: tasks %v began more than 100ms after the cancel was acknowledged", desc, late)
@@ -346,6 +405,6 @@ func TestC04Real(t *testing.T) {
 			rt.Fatalf("[C04] %s: %d task processes are alive after the canceled job was reported finished", desc, len(alive))
 		}
 		nontrivial := startedAtAck < len(ts)
-		col.Add(desc, nontrivial, map[string]int{"cancel-with-tasks-left": btoi(nontrivial), "reported-canceled": btoi(v.Canceled)}, len(ts), desc)
+		col.Add(desc, nontrivial, map[string]int{"cancel-with-tasks-left": btoi(nontrivial), "reported-canceled": btoi(v.Canceled), "cancel-between-two-tasks": btoi(inGap)}, len(ts), desc)
 	})
 }
